@@ -327,6 +327,13 @@ func genHistory(seed uint64, spec *GenesisSpec, g *genOpts) (*History, *HistResu
 			}
 			break
 		}
+		if n.EmptyValset {
+			// this block removed the last validator: Tendermint would have refused the update and stopped the
+			// chain; the history ends before it (states after it are not reachable by a deployed node)
+			h.Blocks = h.Blocks[:len(h.Blocks)-1]
+			res.Hashes, res.Results, res.Updates = res.Hashes[:len(res.Hashes)-1], res.Results[:len(res.Results)-1], res.Updates[:len(res.Updates)-1]
+			break
+		}
 		for i, tr := range br.Txs {
 			if i < len(gens) {
 				// the nonce bookkeeping of the generator assumed success
